@@ -120,6 +120,13 @@ func (a *recCore) Acknowledge(id string) bool {
 		a.env.log(Ev{K: "ad", C: -1, Op: "Acknowledge", Q: a.idx, J: -1, G: -1, S: id, E: "fault"})
 		return false
 	}
+	if f := a.faults["AckGate"]; f != nil && f[a.mcalls["Acknowledge"]] {
+		// a slow acknowledgement (a remote round trip): it completes when nothing else can run
+		gen := a.env.ackGen
+		a.env.ackParked++
+		vrt.Block(vrt.KeyOf(a.env)+2000003, "slow acknowledge", func() bool { return a.env.ackGen > gen })
+		a.env.ackParked--
+	}
 	it, ok := a.unacked[id]
 	if !ok {
 		e := "unknown-id"
